@@ -26,6 +26,9 @@
 //!                      open, closed into a cycle, closed into a cycle entered from a tail
 
 mod graph;
+#[path = "../c04/inherit.rs"]
+#[allow(dead_code)]
+mod inherit;
 #[path = "../c10x/glob.rs"]
 #[allow(dead_code)]
 mod globfam;
@@ -1095,7 +1098,7 @@ fn main() {
             Family::new(
                 "glob-entry-changing-files",
                 cn * cn,
-                &format!("ALL histories of length <= {cdepth} over {cn} operations (load_from_glob of a directory whose files change between the calls - valid, a file stopped parsing, a file removed, no file at all, other content - and of a fixed directory; full_reload; a refused pattern; a hand-added template including one of the glob's files): a call is accepted exactly when the resulting set is valid on a fresh instance, and the instance then renders like that fresh instance"),
+                &format!("ALL histories of length <= {cdepth} over {cn} operations (load_from_glob of a directory whose files change between the calls - valid, a file stopped parsing, a file removed, no file at all, other content - and of a fixed directory; full_reload; a refused pattern; a hand-added template including one of the glob's files, another with the name and text of one of them): a call is accepted exactly when the resulting set is valid on a fresh instance, and the instance then renders like that fresh instance"),
             )
             .describe(|item| json!({"api": "load_from_glob / full_reload over changing files", "history_prefix": [globfam::op_json(cops_ref[(item / cn) as usize]), globfam::op_json(cops_ref[(item % cn) as usize])]}))
             .crash_signature(|_, kind| format!("{kind}:glob-entry-changing-files")),
@@ -1108,7 +1111,7 @@ fn main() {
             Family::new(
                 "glob-entry",
                 gn * gn,
-                &format!("ALL histories of length <= {gdepth} over {gn} operations (load_from_glob of six fixed directories - one with a dangling parent, one valid only next to a hand-added template - of refused patterns and of a pattern matching nothing; full_reload; three hand-added templates that extend / include / call into the glob's templates): same oracle"),
+                &format!("ALL histories of length <= {gdepth} over {gn} operations (load_from_glob of six fixed directories - one with a dangling parent, one valid only next to a hand-added template - of refused patterns and of a pattern matching nothing; full_reload; three hand-added templates that extend / include / call into the glob's templates, one whose name the globs carry too): same oracle"),
             )
             .describe(|item| json!({"api": "load_from_glob / full_reload", "history_prefix": [globfam::op_json(gops_ref[(item / gn) as usize]), globfam::op_json(gops_ref[(item % gn) as usize])]}))
             .crash_signature(|_, kind| format!("{kind}:glob-entry")),
@@ -1122,6 +1125,99 @@ fn main() {
             run.guard("glob-entry-both-outcomes", ok > 100 && err > 100, format!("accepted={ok} refused on an instance holding templates={err}"));
             let _ = std::fs::remove_dir_all(&files_dir);
         }
+    }
+
+    // ------------------------------------------------------------------ blocks rendering each other
+    // "Every accepted set can be rendered without unbounded recursion" also when the recursion runs
+    // through blocks instead of includes: a child may define block `a` inside its override of `n`
+    // while the parent has `n` inside `a`, and with `super()` the two render each other for ever.
+    // Such sets are accepted (the graph of templates is a plain chain); every render of them has to
+    // come back with an error. The chains are those of C04's nesting alphabet (every forest of
+    // nested blocks over {a, n}, each block with or without super()) on which C04's reference says
+    // block resolution does not terminate. (Seeded change C11-12 gave `super()` a fresh block stack,
+    // so the nesting guard never saw more than one level.)
+    {
+        let forests = inherit::forests(&["a", "n"]);
+        let nf = forests.len() as u64;
+        let max_l = if thorough { 4 } else { 3 };
+        let levels_of: Vec<Vec<inherit::Level>> = (0..max_l).map(|k| forests.iter().map(|f| f.level(k)).collect()).collect();
+        let srcs_of: Vec<Vec<String>> = (0..max_l).map(|k| levels_of[k].iter().map(|l| inherit::body_source(l, k)).collect()).collect();
+        // items: chains of length 2..=max_l, lengths concatenated
+        let counts: Vec<u64> = (2..=max_l).map(|l| nf.pow(l as u32)).collect();
+        let total: u64 = counts.iter().sum();
+        let decode = |mut item: u64| -> Vec<usize> {
+            let mut l = 2;
+            for c in &counts {
+                if item < *c {
+                    break;
+                }
+                item -= c;
+                l += 1;
+            }
+            let mut idx = vec![0usize; l];
+            for k in (0..l).rev() {
+                idx[k] = (item % nf) as usize;
+                item /= nf;
+            }
+            idx
+        };
+        let templates_of = |idx: &[usize]| -> Vec<(String, String)> {
+            idx.iter()
+                .enumerate()
+                .map(|(k, &o)| (format!("t{k}"), if k == 0 { srcs_of[0][o].clone() } else { format!("{{% extends \"t{}\" %}}{}", k - 1, srcs_of[k][o]) }))
+                .collect()
+        };
+        run.family(
+            Family::new(
+                "blocks-rendering-each-other",
+                total,
+                &format!("every chain of 2..={max_l} templates over the {nf} forests of nested blocks {{a, n}} (each block with or without super()) on which block resolution does not terminate (the others are skipped): accepted sets whose every render / render_block must come back - Ok or Err, no stack overflow, no hang"),
+            )
+            .describe(|i| json!({"templates": templates_of(&decode(i)).iter().map(|(n, s)| json!({"name": n, "source": s})).collect::<Vec<_>>(), "calls": "render + render_block(a), render_block(n) of every level"}))
+            .crash_signature(|_, kind| format!("accepted-set-render-{}:blocks-through-super", if kind == "hang" { "hang" } else { "overflow" }))
+            .timeout(30.0),
+            |item, acc: &mut Acc| {
+                let idx = decode(item);
+                let lv: Vec<&inherit::Level> = idx.iter().enumerate().map(|(k, &o)| &levels_of[k][o]).collect();
+                let valid = (0..lv.len()).all(|k| inherit::level_verdict(&lv, k).is_ok());
+                let diverges = valid && (0..lv.len()).any(|k| inherit::reference_render(&lv, k).out == Err(inherit::RefError::Diverges));
+                if !diverges {
+                    return;
+                }
+                let tpls = templates_of(&idx);
+                let case = || json!({"templates": tpls.iter().map(|(n, s)| json!({"name": n, "source": s})).collect::<Vec<_>>()});
+                let mut t = tera::Tera::default();
+                match engine::guarded(|| t.add_raw_templates(tpls.iter().map(|(n, s)| (n.as_str(), s.as_str())))) {
+                    Ok(Ok(())) => {}
+                    Ok(Err(_)) => {
+                        // C04 judges acceptance of these chains; a refused one cannot recurse
+                        acc.case(true, "blocks-through-super:refused-at-registration");
+                        return;
+                    }
+                    Err(p) => {
+                        acc.violation("panic:add:blocks-through-super", format!("add_raw_templates panicked: {p}"), case);
+                        return;
+                    }
+                }
+                let ctx = tera::Context::new();
+                for (name, _) in &tpls {
+                    let mut outs = vec![("render".to_string(), engine::guarded(|| t.render(name, &ctx)))];
+                    for b in ["a", "n"] {
+                        outs.push((format!("render_block({b})"), engine::guarded(|| t.render_block(name, b, &ctx))));
+                    }
+                    for (call, o) in outs {
+                        match o {
+                            Ok(Ok(_)) => acc.case(true, "blocks-through-super:text"),
+                            Ok(Err(_)) => acc.case(true, "blocks-through-super:error"),
+                            Err(p) => {
+                                acc.violation("panic:render:blocks-through-super", format!("{call} of {name} panicked: {p}"), case);
+                                acc.case(true, "blocks-through-super:panic");
+                            }
+                        }
+                    }
+                }
+            },
+        );
     }
 
     // ------------------------------------------------------------------ chains
